@@ -1014,7 +1014,7 @@ class Run:
         self.learn_pks()
         if got != expected:
             key = '%s:%s' % (form, ctxkey)
-            if new_param: key = 'unflushed-object-as-query-parameter:' + form
+            if new_param: key = 'unflushed-object-as-query-parameter'
             if form == 'coll-iter' and getattr(self, '_dead_listed', False): key = 'deleted-object-listed-in-collection:' + ctxkey.split(':')[0]
             self.finding('C10', key, 'a read inside the session does not reflect what the session did',
                          observed={'form': form, 'got': got}, expected=expected)
